@@ -10,7 +10,6 @@ import (
 	"github.com/relex/gotils/channels"
 	"github.com/relex/gotils/logger"
 	"github.com/relex/slog-agent/base"
-	"github.com/relex/slog-agent/util"
 	"github.com/relex/slog-agent/zz_verif/fakes"
 	"github.com/relex/slog-agent/zz_verif/fsmodel"
 	"github.com/relex/slog-agent/zz_verif/sym"
@@ -404,7 +403,7 @@ func VerifC04_StaleTempFileDoesNotBlockRecovery() {
 		if i == stale {
 			k := sym.IntRange("partialLength", 0, 3000)
 			sym.Assume(k <= len(datas[i]))
-			fs.Files[id+util.TempFileSuffix] = append([]byte{}, datas[i][:k]...)
+			fs.Files[id+".tmp"] = append([]byte{}, datas[i][:k]...) // the name WriteFileAt gives its temporary file
 			continue
 		}
 		fs.Files[id] = append([]byte{}, datas[i]...)
@@ -442,6 +441,16 @@ func VerifC04_StaleTempFileDoesNotBlockRecovery() {
 	verifNoDescriptorLeak(fs)
 	sym.Reach("recovered")
 }
+
+// VerifC03_CrashLeavesNoPhantomChunk: the fault-at-any-position run read for C03: after a crash in the middle of a
+// save and a restart, the consumer receives only chunks that were accepted (no temporary or partial file is taken
+// for a chunk), in creation order, each at most once.
+//
+//verif:reach crashed survived
+//verif:native off
+//verif:solver cvc5-int
+//verif:paths 100000
+func VerifC03_CrashLeavesNoPhantomChunk() { VerifC04_FaultAtAnyQueuePosition() }
 
 // VerifC03_DamagedChunkIsCounted: the damaged-file run read for C03 (every recovered chunk is forwarded or counted as dropped).
 //
